@@ -24,6 +24,7 @@ os.environ.setdefault("PYTHONHASHSEED", "0")
 from harness import catalog, findings, pool, tlc  # noqa: E402
 from harness.show import brief  # noqa: E402
 
+ROUND_TASKS = 96        # generation / replay tasks executed and validated per round (bounds the memory of the thorough tier)
 GLOBAL_OWNER = {"wellformed": "C03", "poison": "C12", "frame": "C17", "options": "C14"}
 STD_KEYS = ("act", "prop", "args", "out", "res", "digests", "targets", "after", "opts", "ms", "kept", "note")
 
@@ -49,24 +50,30 @@ def nontrivial(ev, regs) -> bool:
                any(c["r"]["s"] != 0 or c["i"]["s"] != 0 for row in a["coefs"] for c in row) for a in polys)
 
 
-def census(traces, pid):
-    """Measured counts for the evidence file."""
-    seen, per_action, nontriv = set(), {}, 0
-    total_calls = 0
-    for tr in traces:
-        regs = []
-        for ev in tr["events"]:
-            if ev["act"] != "new":
-                total_calls += 1
-                per_action[ev["act"]] = per_action.get(ev["act"], 0) + 1
-                if ev["prop"] == pid or pid in GLOBAL_OWNER.values():
-                    k = event_key(tr, ev, regs)
-                    if k not in seen and nontrivial(ev, regs):
-                        seen.add(k)
-                        nontriv += 1
-            if ev["out"] == "ret" and ev.get("kept", True):
-                regs.extend(ev["res"])
-    return {"calls": total_calls, "distinct_nontrivial": nontriv, "per_action": per_action}
+class Census:
+    """Measured counts for the evidence file, accumulated round by round (traces are not kept)."""
+
+    def __init__(self, pid):
+        self.pid, self.seen, self.per_action, self.nontriv, self.total_calls = pid, set(), {}, 0, 0
+
+    def add(self, traces):
+        pid = self.pid
+        for tr in traces:
+            regs = []
+            for ev in tr["events"]:
+                if ev["act"] != "new":
+                    self.total_calls += 1
+                    self.per_action[ev["act"]] = self.per_action.get(ev["act"], 0) + 1
+                    if ev["prop"] == pid or pid in GLOBAL_OWNER.values():
+                        k = event_key(tr, ev, regs)
+                        if k not in self.seen and nontrivial(ev, regs):
+                            self.seen.add(k)
+                            self.nontriv += 1
+                if ev["out"] == "ret" and ev.get("kept", True):
+                    regs.extend(ev["res"])
+
+    def result(self):
+        return {"calls": self.total_calls, "distinct_nontrivial": self.nontriv, "per_action": self.per_action}
 
 
 def sample_events(traces, pid, n=4):
@@ -155,17 +162,36 @@ def check(pid: str, tier: str, seed: int, replay_path: str = None) -> int:
             for name, sizes, kw in catalog.drivers_for(pid, tier):
                 tasks.extend(pool.driver_tasks(name, seed, sizes, kw.pop("_prop", pid), kw))
             stage["models_s"] = round(time.time() - t_stage, 1)
+        # (4) execution and validation in rounds of bounded size: only rejected traces are kept in memory
+        cen = Census(pid)
+        samples, first_prop = [], None
+        verdict = {"failures": [], "events": 0, "traces": 0, "expected_events": 0, "skipped": 0, "batches": 0}
+        by_id = {}
+        stage["execution_s"] = stage["validation_s"] = 0.0
+        rounds = [traces] if replay_path else [None] * ((len(tasks) + ROUND_TASKS - 1) // ROUND_TASKS)
+        for rn, given in enumerate(rounds):
             t_stage = time.time()
-            traces = pool.run_tasks(tasks)
-            stage["execution_s"] = round(time.time() - t_stage, 1)
-        t_stage = time.time()
-        # (4) validation
-        verdict = tlc.validate_traces(traces, wd, "main")
+            chunk = given if given is not None else pool.run_tasks(tasks[rn * ROUND_TASKS:(rn + 1) * ROUND_TASKS])
+            stage["execution_s"] = round(stage["execution_s"] + time.time() - t_stage, 1)
+            if not chunk:
+                continue
+            t_stage = time.time()
+            v = tlc.validate_traces(chunk, wd, "main%03d" % rn)
+            stage["validation_s"] = round(stage["validation_s"] + time.time() - t_stage, 1)
+            for k in ("events", "traces", "expected_events", "skipped", "batches"):
+                verdict[k] += v.get(k, 0)
+            verdict["failures"].extend(v["failures"])
+            bad = {f["trace"] for f in v["failures"]}
+            by_id.update({t["id"]: t for t in chunk if t["id"] in bad})
+            cen.add(chunk)
+            if len(samples) < 4:
+                samples.extend(sample_events(chunk, pid, 4 - len(samples)))
+            if first_prop is None and chunk:
+                first_prop = chunk[0]["prop"]
+                fallback_samples = sample_events(chunk, first_prop)
         if verdict["events"] + verdict.get("skipped", 0) != verdict["expected_events"]:
             raise tlc.MachineryError("TLC judged %d events, %d were recorded" % (
                 verdict["events"], verdict["expected_events"]))
-        stage["validation_s"] = round(time.time() - t_stage, 1)
-        by_id = {t["id"]: t for t in traces}
         mine, others, known = [], [], []
         for f in verdict["failures"]:
             own = owner_of(f)
@@ -212,7 +238,7 @@ def check(pid: str, tier: str, seed: int, replay_path: str = None) -> int:
         for (own, act, clause), n in sorted(summary.items()):
             out_lines.append("NOTE: %d rejection(s) owned by %s (action %s, clause %s) seen on the way" % (n, own, act, clause))
         # (6) evidence
-        cen = census(traces, pid)
+        cen = cen.result()
         states = sum(m["distinct"] for m in model_stats) + verdict["events"] + verdict.get("batches", 0)
         transitions = sum(m["generated"] for m in model_stats) + verdict["events"]
         evidence = {
@@ -225,7 +251,7 @@ def check(pid: str, tier: str, seed: int, replay_path: str = None) -> int:
                 "rule": "evaluations = public calls executed on the real library and judged by TLC; "
                         "distinct_nontrivial = distinct (action, parameters, operand digests) whose operands include "
                         "a non-constant polynomial with a non-zero coefficient (option / utility actions: every distinct call)",
-                "samples": sample_events(traces, pid) or sample_events(traces, traces[0]["prop"] if traces else pid),
+                "samples": samples or (fallback_samples if first_prop is not None else []),
                 "stage_seconds": stage, "bounded_models": model_stats, "per_action_events": cen["per_action"],
                 "rejections_owned": len(violations), "known_finding_rejections": len(known),
                 "known_findings": wstatus,
